@@ -62,6 +62,180 @@ def _is_copy(e: Engine, n: Node) -> bool:
         'copy', '_append_envelope_copy'))
 
 
+class _Groups:
+    """Reading of a split written with comprehensions: which lists of
+    recipients one envelope copy is made for.  An expression is evaluated to
+    a list of *sources* - 'rcpt' (one singleton list per recipient), 'groups'
+    (the value lists of the domain table), 'bad' (one singleton list per bad
+    recipient) - or None when it cannot be read."""
+
+    def __init__(self, e, g, roles):
+        self.e, self.g, self.roles = e, g, roles
+
+    def role(self, x, fr):
+        x, fr = common.origin(self.g, x, fr)
+        try:
+            k = canon(x, fr)
+        except Exception:
+            k = path_of(x, fr)
+        r = self.roles.get(k)
+        if r is None and isinstance(x, (ast.Name, ast.Attribute)):
+            r = self.roles.get(path_of(x, fr))
+        return r
+
+    def lists(self, x, fr, depth=0):
+        if depth > 8 or x is None:
+            return None
+        if isinstance(x, ast.Name):
+            fn = fr.ctx.func
+            if x.id in fn.params:
+                x2, f2 = common.origin(self.g, x, fr, follow_locals=False)
+                if x2 is x:
+                    return None
+                return self.lists(x2, f2, depth + 1)
+            out = []
+            ndefs = 0
+            for st in walk_own(fn.node):
+                tg = None
+                if isinstance(st, ast.Assign) and len(st.targets) == 1 and \
+                        isinstance(st.targets[0], ast.Name) and \
+                        st.targets[0].id == x.id:
+                    r = self.lists(st.value, fr, depth + 1)
+                    ndefs += 1
+                    if r is None or ndefs > 1:
+                        return None
+                    out += r
+                elif isinstance(st, ast.AugAssign) and \
+                        isinstance(st.target, ast.Name) and \
+                        st.target.id == x.id:
+                    r = self.lists(st.value, fr, depth + 1) if isinstance(
+                        st.op, ast.Add) else None
+                    if r is None:
+                        return None
+                    out += r
+                elif isinstance(st, ast.Call) and \
+                        isinstance(st.func, ast.Attribute) and \
+                        isinstance(st.func.value, ast.Name) and \
+                        st.func.value.id == x.id and st.func.attr in (
+                            'extend', 'append', 'insert', 'remove', 'pop',
+                            'clear', 'sort', 'reverse'):
+                    if st.func.attr != 'extend' or len(st.args) != 1:
+                        return None
+                    r = self.lists(st.args[0], fr, depth + 1)
+                    if r is None:
+                        return None
+                    out += r
+                elif isinstance(st, (ast.For, ast.Assign)) and any(
+                        isinstance(y, ast.Name) and y.id == x.id and
+                        isinstance(y.ctx, ast.Store)
+                        for y in ast.walk(st.target if isinstance(
+                            st, ast.For) else st.targets[0])):
+                    return None
+            return out if ndefs == 1 else None
+        if isinstance(x, ast.BinOp) and isinstance(x.op, ast.Add):
+            a = self.lists(x.left, fr, depth + 1)
+            b = self.lists(x.right, fr, depth + 1)
+            return None if a is None or b is None else a + b
+        if isinstance(x, ast.Call) and isinstance(x.func, ast.Name) and \
+                x.func.id in ('list', 'tuple') and len(x.args) == 1:
+            return self.lists(x.args[0], fr, depth + 1)
+        if isinstance(x, ast.Call) and isinstance(x.func, ast.Attribute) and \
+                x.func.attr == 'values' and not x.args and \
+                self.role(x.func.value, fr) == 'groups':
+            return ['groups']
+        if isinstance(x, (ast.ListComp, ast.GeneratorExp)) and \
+                len(x.generators) == 1 and not x.generators[0].ifs:
+            gen = x.generators[0]
+            src = self.role(gen.iter, fr)
+            # [[v] for v in SRC]
+            if isinstance(x.elt, ast.List) and len(x.elt.elts) == 1 and \
+                    isinstance(x.elt.elts[0], ast.Name) and \
+                    isinstance(gen.target, ast.Name) and \
+                    x.elt.elts[0].id == gen.target.id and \
+                    src in ('rcpt', 'bad'):
+                return [src]
+            # [rcpts for domain, rcpts in G.items()]
+            if isinstance(gen.iter, ast.Call) and \
+                    isinstance(gen.iter.func, ast.Attribute) and \
+                    gen.iter.func.attr == 'items' and \
+                    self.role(gen.iter.func.value, fr) == 'groups' and \
+                    isinstance(gen.target, ast.Tuple) and \
+                    len(gen.target.elts) == 2 and \
+                    isinstance(x.elt, ast.Name) and \
+                    isinstance(gen.target.elts[1], ast.Name) and \
+                    x.elt.id == gen.target.elts[1].id:
+                return ['groups']
+            return None
+        if isinstance(x, ast.Call):
+            vals = common.values_of(self.g, x, fr)
+            if len(vals) == 1 and vals[0][0] is x:
+                return None
+            outs = [self.lists(v, f2, depth + 1) for v, f2 in vals]
+            if any(o is None for o in outs) or \
+                    len({tuple(o) for o in outs}) != 1:
+                return None
+            return outs[0]
+        return None
+
+    def envelopes(self, x, fr, depth=0):
+        """sources for which `x` holds one envelope copy each"""
+        if depth > 8 or x is None:
+            return None
+        if isinstance(x, (ast.ListComp, ast.GeneratorExp)) and \
+                len(x.generators) == 1 and not x.generators[0].ifs and \
+                isinstance(x.elt, ast.Call) and \
+                isinstance(x.elt.func, ast.Attribute) and \
+                x.elt.func.attr == 'copy' and len(x.elt.args) == 1 and \
+                isinstance(x.elt.args[0], ast.Name) and \
+                isinstance(x.generators[0].target, ast.Name) and \
+                x.elt.args[0].id == x.generators[0].target.id:
+            return self.lists(x.generators[0].iter, fr, depth + 1)
+        if isinstance(x, ast.Call) and isinstance(x.func, ast.Name) and \
+                x.func.id == 'list' and len(x.args) == 1:
+            return self.envelopes(x.args[0], fr, depth + 1)
+        if isinstance(x, ast.Call):
+            vals = common.values_of(self.g, x, fr)
+            if len(vals) == 1 and vals[0][0] is x:
+                return None
+            outs = []
+            for v, f2 in vals:
+                if isinstance(v, ast.Constant) and v.value is None:
+                    continue         # "keep the original"
+                outs.append(self.envelopes(v, f2, depth + 1))
+            if not outs or any(o is None for o in outs) or \
+                    len({tuple(o) for o in outs}) != 1:
+                return None
+            return outs[0]
+        if isinstance(x, ast.Name):
+            x2, f2 = common.origin(self.g, x, fr)
+            if x2 is not x:
+                return self.envelopes(x2, f2, depth + 1)
+        return None
+
+
+def _split_by_comprehension(e, rep, g, where, roles, want, what):
+    """the split spelled with comprehensions: every non-None value the root
+    function returns holds one copy per element of `want`"""
+    G = _Groups(e, g, roles)
+    rets = [r for r in g.of_kind('stmt') if isinstance(r.ast, ast.Return)
+            and r.frame is g.entry.frame and r.ast.value is not None and
+            not (isinstance(r.ast.value, ast.Constant) and
+                 r.ast.value.value is None)]
+    if not rets:
+        return False
+    got = [G.envelopes(r.ast.value, r.frame) for r in rets]
+    if any(x is None for x in got):
+        return False
+    for r, srcs in zip(rets, got):
+        rep.evaluations += 1
+        rep.check(sorted(srcs) == sorted(want), 'P1', where, what,
+                  'the envelopes returned are copies for %s instead of %s: '
+                  'recipients are lost or duplicated' % (srcs, want),
+                  loc=r.loc(), reason='one copy per element of %s' % want)
+    return True
+
+
+
 def p1(e: Engine, rep: Report):
     # RecipientSplit.apply
     ctx = e.method_ctx(SPLIT + '.RecipientSplit', 'apply')
@@ -72,7 +246,14 @@ def p1(e: Engine, rep: Report):
     loops = [n for n in g.of_kind('iter') if isinstance(n.ast, ast.For) and
              'recipients' in ast.unparse(n.ast.iter)]
     if not loops:
-        rep.error('anchor vanished: recipient loop in RecipientSplit.apply')
+        envp = ctx.func.params[1]
+        roles = {'%s#%d.recipients' % (envp, g.entry.frame.id): 'rcpt'}
+        if _split_by_comprehension(e, rep, g, where, roles, ['rcpt'],
+                                   'one copy per recipient'):
+            rep.evaluations += 1
+        else:
+            rep.error('anchor vanished: recipient loop in '
+                      'RecipientSplit.apply')
     for lp in loops:
         rep.evaluations += 2
         lv = ast.unparse(lp.ast.target)
@@ -147,7 +328,26 @@ def p1(e: Engine, rep: Report):
     loops = [n for n in g.of_kind('iter') if isinstance(n.ast, ast.For)]
     srcs = sorted(ast.unparse(lp.ast.iter) for lp in loops)
     rep.evaluations += 1
+    comp_read = False
     if not loops:
+        # names the (groups, bad recipients) pair was unpacked into
+        roles = {}
+        for s2 in g.of_kind('stmt'):
+            if isinstance(s2.ast, ast.Assign) and \
+                    isinstance(s2.ast.value, ast.Call) and \
+                    ast.unparse(s2.ast.value.func).endswith(
+                        '_get_domain_groups') and \
+                    isinstance(s2.ast.targets[0], ast.Tuple) and \
+                    len(s2.ast.targets[0].elts) == 2:
+                a, b = s2.ast.targets[0].elts
+                roles[path_of(a, s2.frame)] = 'groups'
+                roles[path_of(b, s2.frame)] = 'bad'
+        comp_read = bool(roles) and _split_by_comprehension(
+            e, rep, g, where, roles, ['groups', 'bad'],
+            'copies are made for every group and every bad recipient')
+    if comp_read:
+        pass
+    elif not loops:
         rep.error('cannot read how RecipientDomainSplit.apply turns the '
                   'groups and the bad recipients into envelopes (no '
                   'emitting loops)')
